@@ -26,7 +26,11 @@ EXPLANATION = (
     "compiled contractors are dropped whenever the sliced set changes; (NODE) who "
     "may add/remove nodes. Each is a necessary condition of C02 (breaking it "
     "yields a history that returns wrong values); value equality itself is not "
-    "decided."
+    "decided. "
+    "Later rounds added: "
+    "(CORES recipes) whoever rewrites or drops an order-sensitive recipe drops the "
+    "compiled contractors; (SLICESUM) per-slice results are recombined exactly; (MERGE) "
+    "shared with C18. "
 )
 ASSUMPTIONS = (
     "the ast of cotengra/*.py is the program (no monkey-patching, optional "
